@@ -143,13 +143,13 @@ void WrappableGrid<T, DIM>::translate(
     // translation along X
     if (indexOffsetAlongXAxis) {
       for (yIndex = 0; yIndex < numberOfCellsAlongYAxis; yIndex++) {
-        xIndex = indexOffsetsAlongAxes_[0];
+        xIndex = 0;
         for (int xOffset = 0; xOffset < indexOffsetAlongXAxis; xOffset++) {
           this->buffer_[computeCellLinearIndex_(cellIndexes)] = emptyValue;
           xIndex = (xIndex + 1) % numberOfCellsAlongXAxis;
         }
 
-        xIndex = indexOffsetsAlongAxes_[0];
+        xIndex = 0;
         for (int xOffset = 0; xOffset > indexOffsetAlongXAxis; xOffset--) {
           xIndex = (xIndex + numberOfCellsAlongXAxisMinusOne) % numberOfCellsAlongXAxis;
           this->buffer_[computeCellLinearIndex_(cellIndexes)] = emptyValue;
@@ -162,7 +162,7 @@ void WrappableGrid<T, DIM>::translate(
 
     // translation along Y
     if (indexOffsetAlongYAxis) {
-      yIndex = indexOffsetsAlongAxes_[1];
+      yIndex = 0;
       for (int yOffset = 0; yOffset < indexOffsetAlongYAxis; yOffset++) {
         for (xIndex = 0; xIndex < numberOfCellsAlongXAxis; xIndex++) {
           this->buffer_[computeCellLinearIndex_(cellIndexes)] = emptyValue;
@@ -203,7 +203,7 @@ void WrappableGrid<T, DIM>::translate(
     if (indexOffsetAlongXAxis) {
       for (zIndex = 0; zIndex < numberOfCellsAlongZAxis; zIndex++) {
         for (yIndex = 0; yIndex < numberOfCellsAlongYAxis; yIndex++) {
-          xIndex = indexOffsetsAlongAxes_[0];
+          xIndex = 0;
           for (int xOffset = 0; xOffset < indexOffsetAlongXAxis; xOffset++) {
             this->buffer_[computeCellLinearIndex_(cellIndexes)] = emptyValue;
             xIndex = (xIndex + 1) % numberOfCellsAlongXAxis;
@@ -223,7 +223,7 @@ void WrappableGrid<T, DIM>::translate(
     // translation along Y
     if (indexOffsetAlongYAxis) {
       for (zIndex = 0; zIndex < numberOfCellsAlongZAxis; zIndex++) {
-        yIndex = indexOffsetsAlongAxes_[1];
+        yIndex = 0;
         for (int yOffset = 0; yOffset < indexOffsetAlongYAxis; yOffset++) {
           for (xIndex = 0; xIndex < numberOfCellsAlongXAxis; xIndex++) {
             this->buffer_[computeCellLinearIndex_(cellIndexes)] = emptyValue;
@@ -246,7 +246,7 @@ void WrappableGrid<T, DIM>::translate(
 
     // translation along Z
     if (indexOffsetAlongZAxis) {
-      zIndex = indexOffsetsAlongAxes_[2];
+      zIndex = 0;
 
       for (int zOffset = 0; zOffset < indexOffsetAlongZAxis; zOffset++) {
         for (yIndex = 0; yIndex < numberOfCellsAlongYAxis; yIndex++) {
